@@ -33,6 +33,8 @@ pub fn literal(v: &J) -> String {
         "int" => { let i = int_of(v); if i < 0 { if i == i64::MIN { "(0 - 9223372036854775807 - 1)".into() } else { format!("(0 - {})", -i) } } else { format!("{}", i) } }
         "real" => match v["c"].as_str().unwrap() {
             "fin" => { let (n, d) = (v["n"].as_i64().unwrap(), v["d"].as_i64().unwrap()); if n < 0 { format!("(0.0 - {})", decimal(-n, d)) } else { decimal(n, d) } }
+            "q25n" => "0.25000000000000006".into(),
+            "p53" => "9007199254740992.0".into(), "p53b" => "9007199254740994.0".into(),
             "p63" => "9223372036854775808.0".into(), "n63" => "(0.0 - 9223372036854775808.0)".into(),
             "nan" => "('NaN'::real)".into(), "pinf" => "('inf'::real)".into(), "ninf" => "('-inf'::real)".into(),
             _ => "('-0.0'::real)".into()
